@@ -176,3 +176,68 @@ func HarnessC02Lookup() {
 		verif.Assert(verif.Implies(verif.And(present(x), matches(m, x, q)), anyEq(x, seen)), "C02/every-match-returned")
 	}
 }
+
+// C02 (siblings): triples that share components pairwise (subject+predicate,
+// predicate+object, subject+object, a node that is subject of one and object of
+// another) are added, one or two are removed - or a triple that was never
+// stored -, and every lookup method is compared with the scan: an index bucket
+// must lose exactly the removed triple.
+func HarnessC02Siblings() {
+	m := verif.Param("METHOD", -1)
+	if m < 0 {
+		m = verif.Choice("method", 10)
+	}
+	g, err := memory.NewStore().NewGraph(ctx, "?g")
+	verif.Assume(err == nil)
+	s, p, o := verif.Byte("s"), verif.Byte("p"), verif.Byte("o")
+	s2, p2, o2 := verif.Byte("s2"), verif.Byte("p2"), verif.Byte("o2")
+	verif.Assume(verif.And(verif.And(alpha(s), alpha(p)), verif.And(alpha(o), verif.And(alpha(s2), verif.And(alpha(p2), alpha(o2))))))
+	mk := func(sb, pb, ob byte) *spec {
+		sp := &spec{sb: sb, pb: pb, ob: ob}
+		sp.t = sp.build()
+		return sp
+	}
+	t := []*spec{mk(s, p, o), mk(s2, p, o), mk(s, p2, o), mk(s, p, o2), mk(o, p, s2), mk(s2, p2, o2)}
+	added := t[:5]
+	var removed []*spec
+	switch verif.Choice("remove", 6) {
+	case 0:
+		removed = []*spec{t[0]}
+	case 1:
+		removed = []*spec{t[1]}
+	case 2:
+		removed = []*spec{t[4]}
+	case 3:
+		removed = []*spec{t[5]} // possibly never stored
+	case 4:
+		removed = []*spec{t[0], t[0]}
+	default:
+		removed = []*spec{t[3], t[2]}
+	}
+	q := t[verif.Choice("query", 6)]
+	var res []*spec
+	var lerr error
+	var foreign bool
+	ok := noPanic("C02/siblings/no-panic", func() {
+		g.AddTriples(ctx, triples(added))
+		g.RemoveTriples(ctx, triples(removed))
+		res, lerr, foreign = lookup(g, m, q, storage.DefaultLookup, t)
+	})
+	if !ok {
+		return
+	}
+	verif.Reach("looked-up")
+	verif.Assert(lerr == nil, "C02/siblings/lookup-succeeds")
+	verif.Assert(!foreign, "C02/siblings/result-derived-from-stored-triple")
+	present := func(x *spec) bool { return verif.And(anyEq(x, added), !anyEq(x, removed)) }
+	var seen []*spec
+	for _, x := range res {
+		verif.Assert(present(x), "C02/siblings/result-is-stored")
+		verif.Assert(matches(m, x, q), "C02/siblings/result-matches-fixed-components")
+		verif.Assert(!anyEq(x, seen), "C02/siblings/one-result-per-triple")
+		seen = append(seen, x)
+	}
+	for _, x := range t {
+		verif.Assert(verif.Implies(verif.And(present(x), matches(m, x, q)), anyEq(x, seen)), "C02/siblings/every-match-returned")
+	}
+}
